@@ -32,10 +32,15 @@ func copyTraversal(p *core.Prog) *ssa.Function {
 			continue
 		}
 		hasGo, hasPut := false, false
+		// goroutines may be started by a local literal (a spawn wrapper)
+		for _, f := range core.WithAnon(fn) {
+			core.Calls(f, func(c ssa.CallInstruction) {
+				if _, ok := c.(*ssa.Go); ok {
+					hasGo = true
+				}
+			})
+		}
 		core.Calls(fn, func(c ssa.CallInstruction) {
-			if _, ok := c.(*ssa.Go); ok {
-				hasGo = true
-			}
 			if cal := core.Callee(c); cal != nil && core.IsModMethod(cal, ".", "RegClient", "ManifestPut") {
 				hasPut = true
 			}
@@ -64,7 +69,7 @@ func runC04(p *core.Prog, r *core.Report) {
 	r.Rule("C04.R1", "spawn/complete pairing: every go statement of the copy traversal is preceded by an increment of the counter, and its function sends exactly once on the completion channel on every path, after its last client call", 10)
 	r.Rule("C04.R2", "barrier: every iteration path of the loop `for n > 0` performs exactly one receive and one decrement; the early non-blocking loop performs as many decrements as receives", 2)
 	r.Rule("C04.R3", "the manifest write is behind the barrier: every path to it passes the barrier's exit and the nil edge of the received error; no goroutine is started after the barrier", 3)
-	r.Rule("C04.R4", "children are written by digest with the child flag; a tag is written only without the child flag", 5)
+	r.Rule("C04.R4", "children are written by digest with the child flag; a tag is written only without the child flag", 3)
 	r.Rule("C04.R5", "nothing mutating follows the manifest write inside the traversal", 1)
 	r.Rule("C04.R6", "a failed transfer never reports success: blob copy returns the error of its source read and target write; the shared seen-entry is completed with the copy's own error", 4)
 	fn := copyTraversal(p)
@@ -167,7 +172,7 @@ func (cx *c04ctx) collect() bool {
 			return true
 		}
 		ast.Inspect(fs.Cond, func(x ast.Node) bool {
-			if be, ok := x.(*ast.BinaryExpr); ok && be.Op == token.GTR {
+			if be, ok := x.(*ast.BinaryExpr); ok && (be.Op == token.GTR || be.Op == token.NEQ) {
 				if id, ok := ast.Unparen(be.X).(*ast.Ident); ok {
 					if bl, ok := be.Y.(*ast.BasicLit); ok && bl.Value == "0" {
 						cx.n = cx.info.Uses[id]
@@ -331,22 +336,7 @@ func (cx *c04ctx) countedBefore(g *ast.GoStmt) (bool, string) {
 
 func (cx *c04ctx) r2r3r5() {
 	body := cx.syn.Decl.Body
-	var barriers []*ast.ForStmt // cond exactly `n > 0`
-	var early []*ast.ForStmt    // cond `… && n > 0`
-	core.InspectNoLit(body, func(n ast.Node) bool {
-		fs, ok := n.(*ast.ForStmt)
-		if !ok || fs.Cond == nil || core.CountRecv(cx.info, fs.Body, cx.ch) == 0 {
-			return true
-		}
-		if be, ok := ast.Unparen(fs.Cond).(*ast.BinaryExpr); ok && be.Op == token.GTR {
-			if id, ok := ast.Unparen(be.X).(*ast.Ident); ok && cx.info.Uses[id] == cx.n {
-				barriers = append(barriers, fs)
-				return true
-			}
-		}
-		early = append(early, fs)
-		return true
-	})
+	g := cfg.New(body, core.MayReturn)
 	selectEdge := func(b *cfg.Block) int {
 		if b.Kind != cfg.KindSelectCaseBody {
 			return 0
@@ -356,26 +346,77 @@ func (cx *c04ctx) r2r3r5() {
 		}
 		return 0
 	}
-	checkLoop := func(fs *ast.ForStmt, exact bool, label string) {
+	isCounterPositive := func(e ast.Expr) bool {
+		be, ok := ast.Unparen(e).(*ast.BinaryExpr)
+		if !ok {
+			return false
+		}
+		isN := func(x ast.Expr) bool {
+			id, ok := ast.Unparen(x).(*ast.Ident)
+			return ok && cx.info.Uses[id] == cx.n
+		}
+		isLit := func(x ast.Expr, v string) bool {
+			bl, ok := ast.Unparen(x).(*ast.BasicLit)
+			return ok && bl.Value == v
+		}
+		switch be.Op {
+		case token.GTR:
+			return isN(be.X) && isLit(be.Y, "0")
+		case token.LSS:
+			return isLit(be.X, "0") && isN(be.Y)
+		case token.NEQ:
+			return (isN(be.X) && isLit(be.Y, "0")) || (isLit(be.X, "0") && isN(be.Y))
+		case token.GEQ:
+			return isN(be.X) && isLit(be.Y, "1")
+		}
+		return false
+	}
+	// every loop of the traversal (outside literals) whose body receives a completion, analysed on the
+	// function's CFG: states on the paths from the loop body to the next evaluation of the condition
+	// (an iteration, including the post statement), to the loop's exit block (a break, also a labelled
+	// one from inside a switch or select) and to a return
+	var barriers []*ast.ForStmt // exits only through `n > 0` turning false
+	nLoops := 0
+	core.InspectNoLit(body, func(n ast.Node) bool {
+		fs, ok := n.(*ast.ForStmt)
+		if !ok || core.CountRecv(cx.info, fs.Body, cx.ch) == 0 {
+			return true
+		}
+		nLoops++
 		const rule = "C04.R2"
 		pos := cx.p.Pos(fs.Pos())
-		if hasFreeBranch(fs.Body) {
-			cx.r.Undecided(rule, cx.name, label, pos, "break/continue/goto at the top level of the barrier loop body: iteration paths not recognised")
-			return
+		label := fmt.Sprintf("completion loop#%d", nLoops)
+		var bodyBlk, condBlk, doneBlk *cfg.Block
+		for _, b := range g.Blocks {
+			if b.Stmt != ast.Stmt(fs) {
+				continue
+			}
+			switch b.Kind {
+			case cfg.KindForBody:
+				bodyBlk = b
+			case cfg.KindForLoop:
+				condBlk = b
+			case cfg.KindForDone:
+				doneBlk = b
+			}
+		}
+		if bodyBlk == nil || doneBlk == nil {
+			cx.r.Undecided(rule, cx.name, label, pos, "blocks of the loop not found in the control-flow graph")
+			return true
 		}
 		var flag types.Object
-		if !exact {
-			// the extra conjunct: `!flag`
+		if fs.Cond != nil {
 			ast.Inspect(fs.Cond, func(x ast.Node) bool {
 				if u, ok := x.(*ast.UnaryExpr); ok && u.Op == token.NOT {
 					if id, ok := ast.Unparen(u.X).(*ast.Ident); ok {
-						flag = cx.info.Uses[id]
+						if _, isVar := cx.info.Uses[id].(*types.Var); isVar {
+							flag = cx.info.Uses[id]
+						}
 					}
 				}
 				return true
 			})
 		}
-		g := cfg.New(fs.Body, core.MayReturn)
 		ps := core.PathSpec{Info: cx.info,
 			CountA:   func(n ast.Node) int { return core.CountRecv(cx.info, n, cx.ch) },
 			CountB:   func(n ast.Node) int { return core.CountIncDec(cx.info, n, cx.n, token.DEC) },
@@ -387,46 +428,58 @@ func (cx *c04ctx) r2r3r5() {
 		if flag != nil {
 			entry.Flag = 2 // the loop condition established !flag
 		}
+		stop := map[*cfg.Block]bool{doneBlk: true}
+		if condBlk != nil {
+			stop[condBlk] = true
+		}
+		atStop, _ := ps.StatesFrom(bodyBlk, entry, stop, condBlk == nil)
+		iter := atStop[condBlk]
+		if condBlk == nil {
+			iter = atStop[bodyBlk]
+		}
+		brk := atStop[doneBlk]
 		bad := ""
-		paths := 0
-		for b, sts := range ps.ExitStates(g, entry) {
-			if len(b.Nodes) > 0 {
-				if ret, isRet := b.Nodes[len(b.Nodes)-1].(*ast.ReturnStmt); isRet && ret.Return != fs.Body.End()-1 {
-					continue // an explicit return leaves the function: not an iteration (go/cfg marks the fall-through with a synthetic return at the closing brace)
-				}
-			}
-			for s := range sts {
-				paths++
-				if exact && (s.A != 1 || s.B != 1) {
-					bad = fmt.Sprintf("an iteration path performs %d receive(s) and %d decrement(s): the loop can end before every spawned child has completed (or block forever)", s.A, s.B)
-				}
-				if !exact && s.A != s.B {
-					bad = fmt.Sprintf("an iteration path performs %d receive(s) but %d decrement(s): the counter no longer equals the number of outstanding children", s.A, s.B)
-				}
+		for s := range iter {
+			if s.A != s.B {
+				bad = fmt.Sprintf("an iteration path performs %d receive(s) and %d decrement(s): the counter no longer equals the number of outstanding children (the barrier can end early or block forever)", s.A, s.B)
 			}
 		}
-		if paths == 0 {
+		for s := range brk {
+			if s.A != s.B {
+				bad = fmt.Sprintf("a path that breaks out of the loop performs %d receive(s) and %d decrement(s): the counter no longer equals the number of outstanding children", s.A, s.B)
+			}
+		}
+		if len(iter) == 0 && len(brk) == 0 {
 			cx.r.Undecided(rule, cx.name, label, pos, "no iteration path found")
-			return
+			return true
+		}
+		// a barrier: the condition is exactly `n > 0`, nothing breaks out of it, and every iteration
+		// blocks on a completion (no spinning)
+		isBarrier := fs.Cond != nil && isCounterPositive(fs.Cond) && len(brk) == 0
+		for s := range iter {
+			if s.A == 0 {
+				isBarrier = false
+			}
 		}
 		if bad != "" {
 			cx.r.Violated(rule, cx.name, label, pos, bad)
 		} else {
-			cx.r.Held(rule, cx.name, label, pos, fmt.Sprintf("all %d iteration path states balanced", paths))
+			kind := "early check"
+			if isBarrier {
+				kind = "barrier"
+			}
+			cx.r.Held(rule, cx.name, label, pos, fmt.Sprintf("%s: %d iteration state(s) and %d break state(s), receives and decrements balanced on all of them", kind, len(iter), len(brk)))
 		}
-	}
-	for i, fs := range early {
-		checkLoop(fs, false, fmt.Sprintf("early loop#%d", i+1))
-	}
-	for i, fs := range barriers {
-		checkLoop(fs, true, fmt.Sprintf("barrier loop#%d", i+1))
-	}
+		if isBarrier && bad == "" {
+			barriers = append(barriers, fs)
+		}
+		return true
+	})
 	if len(barriers) == 0 {
-		cx.r.Undecided("C04.R2", cx.name, "barrier loop", cx.p.Pos(body.Pos()), "no loop with condition `"+cx.n.Name()+" > 0` found")
+		cx.r.Undecided("C04.R2", cx.name, "barrier loop", cx.p.Pos(body.Pos()), "no loop that runs until `"+cx.n.Name()+" > 0` is false, receiving one completion per iteration, found")
 		return
 	}
 	// R3 / R5 on the function-level CFG
-	g := cfg.New(body, core.MayReturn)
 	isPut := func(n ast.Node) bool {
 		found := false
 		core.InspectNoLit(n, func(x ast.Node) bool {
@@ -621,7 +674,17 @@ func hasFreeBranch(body *ast.BlockStmt) bool {
 func c04R4(p *core.Prog, r *core.Report, fn *ssa.Function, rule string) {
 	name := p.FuncName(fn)
 	lab := labeler{}
+	// the nested copies are started from the traversal's literals or from unexported helpers they call
+	scope := map[*ssa.Function]bool{}
 	for _, f := range core.WithAnon(fn) {
+		for h := range core.Helpers(f, 2) {
+			for _, g := range core.WithAnon(h) {
+				scope[g] = true
+			}
+		}
+	}
+	for _, f := range sortedFuncs(scope) {
+		f := f
 		core.Calls(f, func(c ssa.CallInstruction) {
 			if core.CalleeFn(c) != fn {
 				return
@@ -787,38 +850,109 @@ func c04R6(p *core.Prog, r *core.Report, trav *ssa.Function, rule string) {
 	}
 	// goroutines of the traversal send the child's error (or nil only on the loop-detected branch)
 	lab := labeler{}
-	for _, lit := range trav.AnonFuncs {
+	name := p.FuncName(trav)
+	loopDetected := func(b *ssa.BasicBlock) bool {
+		return anyGuard(b, func(c ssa.Value, pol bool) bool {
+			call, isCall := c.(*ssa.Call)
+			if !isCall || !pol {
+				return false
+			}
+			cal := core.Callee(call)
+			if cal == nil || !core.IsFunc(cal, "errors", "Is") {
+				return false
+			}
+			return strings.Contains(call.Call.Args[1].String(), "ErrLoopDetected") || globalNamed(call.Call.Args[1], "ErrLoopDetected")
+		})
+	}
+	// judge one completion value: v is sent (or returned by a task that a spawn wrapper sends) at block b of f
+	var judge func(v ssa.Value, b *ssa.BasicBlock, f *ssa.Function, pos string, depth int)
+	judge = func(v ssa.Value, b *ssa.BasicBlock, f *ssa.Function, pos string, depth int) {
+		// spawn wrapper: the value is the result of calling a function parameter; the completions are
+		// what the literals passed for that parameter return
+		if call, ok := v.(*ssa.Call); ok && depth < 2 {
+			fv := call.Call.Value
+			// the parameter may be captured by the goroutine literal (directly or through its cell)
+			if u, isU := fv.(*ssa.UnOp); isU && u.Op == token.MUL {
+				fv = u.X
+			}
+			if free, isFree := fv.(*ssa.FreeVar); isFree {
+				if bnd := core.FreeVarBinding(free); bnd != nil {
+					fv = bnd
+					if al, isAl := bnd.(*ssa.Alloc); isAl {
+						for _, st := range core.StoresToCell(al) {
+							if pr, isPr := st.Val.(*ssa.Parameter); isPr {
+								fv = pr
+							}
+						}
+					}
+				}
+			}
+			if par, isPar := fv.(*ssa.Parameter); isPar && !call.Call.IsInvoke() {
+				w := par.Parent()
+				idx := -1
+				for i, q := range w.Params {
+					if q == par {
+						idx = i
+					}
+				}
+				tasks := 0
+				for _, g := range core.WithAnon(trav) {
+					core.Calls(g, func(c ssa.CallInstruction) {
+						if closureOf(c.Common().Value) != w || idx < 0 || idx >= len(c.Common().Args) {
+							return
+						}
+						task := closureOf(c.Common().Args[idx])
+						if task == nil {
+							return
+						}
+						tasks++
+						for _, ret := range core.Returns(task) {
+							if len(ret.Results) == 1 {
+								judge(core.ReturnOperand(ret, 0), ret.Block(), task, p.Pos(ret.Pos()), depth+1)
+							}
+						}
+					})
+				}
+				if tasks == 0 {
+					r.Undecided(rule, name, lab.next("completion value"), pos, "the completion is the result of a function parameter whose arguments were not found")
+				}
+				return
+			}
+		}
+		label := lab.next("completion value")
+		if core.IsNilConst(v) {
+			// allowed only under errors.Is(err, ErrLoopDetected) with a finalFn append
+			r.Check(loopDetected(b), rule, name, label, pos, "a literal nil completion is only allowed on the loop-detected branch (the retry is queued in finalFn)")
+			return
+		}
+		okErr := false
+		hs := core.Helpers(f, 2)
+		for h := range hs {
+			if h == trav || h.Name() == "imageCopyBlob" {
+				delete(hs, h) // the child copies themselves are the origins looked for
+			}
+		}
+		for _, o := range core.Origins(v, core.SliceOpts{Helpers: hs}) {
+			if o.Kind != core.OCall {
+				continue
+			}
+			if g := core.CalleeFn(o.Call); g != nil && (g == trav || g.Name() == "imageCopyBlob") {
+				okErr = true
+			}
+		}
+		r.Check(okErr, rule, name, label, pos, "the completion sent is the error returned by the child copy")
+	}
+	for _, lit := range core.WithAnon(trav) {
+		if lit == trav {
+			continue
+		}
 		for _, b := range lit.Blocks {
 			for _, in := range b.Instrs {
 				snd, ok := in.(*ssa.Send)
 				if !ok {
 					continue
 				}
-				name := p.FuncName(trav)
-				label := lab.next("completion value")
-				if core.IsNilConst(snd.X) {
-					// allowed only under errors.Is(err, ErrLoopDetected) with a finalFn append
-					okLoop := anyGuard(b, func(c ssa.Value, pol bool) bool {
-						call, isCall := c.(*ssa.Call)
-						if !isCall || !pol {
-							return false
-						}
-						cal := core.Callee(call)
-						if cal == nil || !core.IsFunc(cal, "errors", "Is") {
-							return false
-						}
-						return strings.Contains(call.Call.Args[1].String(), "ErrLoopDetected") || globalNamed(call.Call.Args[1], "ErrLoopDetected")
-					})
-					r.Check(okLoop, rule, name, label, p.Pos(snd.Pos()), "a literal nil completion is only allowed on the loop-detected branch (the retry is queued in finalFn)")
-					continue
-				}
-				okErr := false
-				for _, oc := range originCalls(snd.X) {
-					if g := core.CalleeFn(oc); g != nil && (g == trav || g.Name() == "imageCopyBlob") {
-						okErr = true
-					}
-				}
-				r.Check(okErr, rule, name, label, p.Pos(snd.Pos()), "the completion sent is the error returned by the child copy")
+				judge(snd.X, b, lit, p.Pos(snd.Pos()), 0)
 			}
 		}
 	}
